@@ -12,6 +12,7 @@ import (
 	"runtime"
 	"strconv"
 	"strings"
+	"sync/atomic"
 
 	connect "github.com/bufbuild/connect-go"
 )
@@ -521,6 +522,67 @@ func frameBoundary(flat []byte) bool {
 }
 
 // S-lim (C09, envelope level): limit N, sizes around it, lying prefixes, expanding payloads.
+// eagerDecompressor offers io.WriterTo (as the zstd decoder of klauspost/compress does) and counts
+// what is written through it: everything that goes that way ends up in the receiver's buffer.
+type eagerDecompressor struct {
+	rleDecompressor
+	buffered *int64
+}
+
+func (d *eagerDecompressor) WriteTo(w io.Writer) (int64, error) {
+	var total int64
+	buf := make([]byte, 32<<10)
+	for {
+		n, err := d.rleDecompressor.Read(buf)
+		if n > 0 {
+			total += int64(n)
+			if _, intoBuffer := w.(*bytes.Buffer); intoBuffer { // (io.Discard is how the rest is measured)
+				atomic.AddInt64(d.buffered, int64(n))
+			}
+			if _, werr := w.Write(buf[:n]); werr != nil {
+				return total, werr
+			}
+		}
+		if err == io.EOF {
+			return total, nil
+		}
+		if err != nil {
+			return total, err
+		}
+	}
+}
+
+// eagerDecompressorProbe: whatever conveniences a decompressor offers, the receiver buffers what
+// the limit allows and one byte of a message - not its whole expansion (round 10, C09-mm).
+func eagerDecompressorProbe(c *Ctx) {
+	const limit = 1 << 10
+	for _, proto := range []string{"connect", "grpc", "grpcweb"} {
+		var buffered int64
+		h := connect.NewUnaryHandler("/s/m", func(ctx context.Context, r *connect.Request[[]byte]) (*connect.Response[[]byte], error) {
+			return connect.NewResponse(&[]byte{1}), nil
+		}, connect.WithCodec(rawCodec{"raw"}), connect.WithReadMaxBytes(limit),
+			connect.WithCompression("rle", func() connect.Decompressor { return &eagerDecompressor{buffered: &buffered} }, newRLECompressor))
+		z := bytes.Repeat([]byte{255, 5}, 400) // 800 wire bytes that expand to 102000
+		body := z
+		if proto != "connect" {
+			body = frame(1, z)
+		}
+		req := httptest.NewRequest(http.MethodPost, "/s/m", bytes.NewReader(body))
+		req.ProtoMajor, req.ProtoMinor, req.Proto = 2, 0, "HTTP/2.0"
+		req.Header.Set("Content-Type", ctFor(proto, "unary", "raw"))
+		encH, _ := encHeaderFor(proto, "unary")
+		req.Header.Set(encH, "rle")
+		rec := httptest.NewRecorder()
+		h.ServeHTTP(rec, req)
+		code, _ := responseErrorCode(proto, "unary", rec)
+		got := atomic.LoadInt64(&buffered)
+		c.Count("eager-decompressor-probe")
+		if code != 3 || got > limit+1 {
+			c.Fail("limit-buffered-beyond", fmt.Sprintf("%s unary request of %d wire bytes that expand to 102000, read limit %d, decompressor that offers WriteTo", proto, len(z), limit), fmt.Sprintf("code=%d, %d bytes written into the receiver's buffer", code, got), "the message is refused as invalid_argument and the receiver buffers at most limit+1 bytes of it")
+		}
+	}
+}
+
 func streamLimit(c *Ctx) {
 	if replayOp != "" {
 		if strings.HasPrefix(replayOp, "rlim ") { // emitted by the option-order probes: run them again
@@ -530,6 +592,7 @@ func streamLimit(c *Ctx) {
 		limitCheck(c, replayOp)
 		return
 	}
+	eagerDecompressorProbe(c)
 	r := c.Rng
 	limits := []int{1, 2, 5, 16, 100, 255, 256, 1024}
 	if c.Thorough() {
